@@ -66,13 +66,14 @@ CLAIMED = {
     "C10": ("model_checking",
             "Round.tla defines the correct rounding declaratively (unique multiple within one increment on the side the mode "
             "prescribes; nearest with the mode's tie rule) on exact integers; TLC model-checks uniqueness and equality with "
-            "the transcription of jiff's algorithm in small scope, and validates every observed rounding of Timestamp, Time, "
+            "the transcription of jiff's algorithm in small scope (Apalache proves the same for every integer and every "
+            "positive increment, AP_Round.tla), and validates every observed rounding of Timestamp, Time, "
             "DateTime, SignedDuration and Offset (all legal increments x 9 modes x boundary values, years <= 0, limits), the "
             "increment legality tables and the out-of-range => Err rule. Zoned rounding is validated with the zoned driver "
             "(C13).",
             "Trusted: TLC, harness encoders; the harness supplies floor(x/inc) of the INPUT as a witness which the spec "
             "verifies by multiplication.",
-            "TLA+ declarative rounding spec, model-checked in small scope, plus trace validation", "DESIGN.md §5 C10"),
+            "TLA+ declarative rounding spec, model-checked in small scope (TLC) and for all integers (Apalache), plus trace validation", "DESIGN.md §5 C10"),
     "C06": ("model_checking",
             "Zoned.tla composes the definitional zone semantics (TzLookup.tla) with the civil arithmetic (CivilArith.tla): "
             "calendar units on the wall clock, compatible re-resolution, then exact elapsed time; start of day as the first "
